@@ -30,7 +30,7 @@ EXHAUSTIVE = {"quick": False, "thorough": False}
 ASSUMPTIONS = [
     "digits are ASCII (\\d, str.isdigit and int() of CPython also accept other Unicode decimal digits)",
     "numbers are short enough for int() (CPython refuses more than 4300 digits)",
-    "hash(obj) reduces the value of __hash__ modulo 2^61-1 (64-bit CPython)",
+    "hash(obj) is the value of __hash__ below 2^63 and that value modulo 2^61-1 above (64-bit CPython)",
     "set()+sorted() raise TypeError exactly when an int and a None meet at the first unequal sort_list position of two members",
 ]
 TRUSTED = ["CiscoIOSInterface and CiscoRange(result_type=None) only; CiscoIOSXRInterface is out of scope"]
